@@ -436,6 +436,11 @@ func (r *Run) canSend(ch *Chan, me *G) bool {
 	if ch.closed || len(ch.buf) < ch.cap {
 		return true
 	}
+	if len(ch.buf) > 0 {
+		// full buffered channel: a receiver waiting at its scheduling point takes
+		// from the buffer first; the send becomes enabled only after that
+		return false
+	}
 	p, _ := r.parkedOn(ch, false, me)
 	return p != nil
 }
